@@ -279,10 +279,10 @@ Qed.
 (* the object an event is about, when it arrives with the controller's class *)
 Definition own_event (e : event) (k : string) : Prop := event_obj e = Some (k, true).
 
-Lemma wve_named o b k out :
+Lemma wve_named o b k u out :
   changes_named o (snd (fst out)) -> problems_named o (snd out) ->
-  changes_named o (snd (fst (with_validation_error b k out))) /\
-  (forall p, In p (snd (with_validation_error b k out)) -> named o (p_obj p) \/ (b = true /\ p_obj p = k)).
+  changes_named o (snd (fst (with_validation_error b k u out))) /\
+  (forall p, In p (snd (with_validation_error b k u out)) -> named o (p_obj p) \/ (b = true /\ p_obj p = k)).
 Proof.
   destruct out as [[s cs] ps]. cbn [fst snd]. intros Hc Hp. unfold with_validation_error.
   destruct b; [|cbn [fst snd]; split; [exact Hc|intros p Hin; left; exact (Hp p Hin)]].
@@ -306,9 +306,9 @@ Proof.
   unfold step_named. destruct e as [i cls valid|k|v cls valid|k|r cls valid|k|t cls valid|k|ls x|]; cbn [step].
   - set (s1 := set_ings s _).
     pose proof (rebuild_hosts_named c s1) as [Hc Hp]. pose proof (objs_rebuild_hosts c s1) as Ho.
-    pose proof (objs_with_error (cls && negb valid) (ing_rkey i) (rebuild_hosts c s1)) as Hw.
-    pose proof (wve_named (objs_of_state s1) (cls && negb valid) (ing_rkey i) (rebuild_hosts c s1) Hc Hp) as [Hc' Hp'].
-    destruct (with_validation_error (cls && negb valid) (ing_rkey i) (rebuild_hosts c s1)) as [[s' cs] ps]. cbn [fst snd] in *.
+    pose proof (objs_with_error (cls && negb valid) (ing_rkey i) (m_uid (i_meta i)) (rebuild_hosts c s1)) as Hw.
+    pose proof (wve_named (objs_of_state s1) (cls && negb valid) (ing_rkey i) (m_uid (i_meta i)) (rebuild_hosts c s1) Hc Hp) as [Hc' Hp'].
+    destruct (with_validation_error (cls && negb valid) (ing_rkey i) (m_uid (i_meta i)) (rebuild_hosts c s1)) as [[s' cs] ps]. cbn [fst snd] in *.
     rewrite Hw, Ho. split; [exact Hc'|]. intros p Hin. destruct (Hp' p Hin) as [H|[Hb Hk]]; [left; exact H|right].
     apply andb_true_iff in Hb. destruct Hb as [Hcls _]. subst cls. unfold own_event. cbn. rewrite Hk. reflexivity.
   - destruct (mem k (ings s)); [|split; [intros ch []|intros p []]].
@@ -316,9 +316,9 @@ Proof.
     destruct (rebuild_hosts c s1) as [[s' cs] ps]. cbn [fst snd] in *. rewrite Ho. split; [exact Hc|intros p Hin; left; exact (Hp p Hin)].
   - set (s1 := set_vss s _).
     pose proof (rebuild_hosts_named c s1) as [Hc Hp]. pose proof (objs_rebuild_hosts c s1) as Ho.
-    pose proof (objs_with_error (cls && negb valid) (vs_rkey v) (rebuild_hosts c s1)) as Hw.
-    pose proof (wve_named (objs_of_state s1) (cls && negb valid) (vs_rkey v) (rebuild_hosts c s1) Hc Hp) as [Hc' Hp'].
-    destruct (with_validation_error (cls && negb valid) (vs_rkey v) (rebuild_hosts c s1)) as [[s' cs] ps]. cbn [fst snd] in *.
+    pose proof (objs_with_error (cls && negb valid) (vs_rkey v) (m_uid (v_meta v)) (rebuild_hosts c s1)) as Hw.
+    pose proof (wve_named (objs_of_state s1) (cls && negb valid) (vs_rkey v) (m_uid (v_meta v)) (rebuild_hosts c s1) Hc Hp) as [Hc' Hp'].
+    destruct (with_validation_error (cls && negb valid) (vs_rkey v) (m_uid (v_meta v)) (rebuild_hosts c s1)) as [[s' cs] ps]. cbn [fst snd] in *.
     rewrite Hw, Ho. split; [exact Hc'|]. intros p Hin. destruct (Hp' p Hin) as [H|[Hb Hk]]; [left; exact H|right].
     apply andb_true_iff in Hb. destruct Hb as [Hcls _]. subst cls. unfold own_event. cbn. rewrite Hk. reflexivity.
   - destruct (mem k (vss s)); [|split; [intros ch []|intros p []]].
@@ -335,9 +335,9 @@ Proof.
     destruct (rebuild_hosts c s1) as [[s' cs] ps]. cbn [fst snd] in *. rewrite Ho. split; [exact Hc|intros p Hin; left; exact (Hp p Hin)].
   - set (s1 := set_tss s _).
     pose proof (rebuild_ts_named c s1) as [Hc Hp]. pose proof (objs_rebuild_ts c s1) as Ho.
-    pose proof (objs_with_error (cls && negb valid) (ts_rkey t) (rebuild_ts c s1)) as Hw.
-    pose proof (wve_named (objs_of_state s1) (cls && negb valid) (ts_rkey t) (rebuild_ts c s1) Hc Hp) as [Hc' Hp'].
-    destruct (with_validation_error (cls && negb valid) (ts_rkey t) (rebuild_ts c s1)) as [[s' cs] ps]. cbn [fst snd] in *.
+    pose proof (objs_with_error (cls && negb valid) (ts_rkey t) (m_uid (t_meta t)) (rebuild_ts c s1)) as Hw.
+    pose proof (wve_named (objs_of_state s1) (cls && negb valid) (ts_rkey t) (m_uid (t_meta t)) (rebuild_ts c s1) Hc Hp) as [Hc' Hp'].
+    destruct (with_validation_error (cls && negb valid) (ts_rkey t) (m_uid (t_meta t)) (rebuild_ts c s1)) as [[s' cs] ps]. cbn [fst snd] in *.
     rewrite Hw, Ho. split; [exact Hc'|]. intros p Hin. destruct (Hp' p Hin) as [H|[Hb Hk]]; [left; exact H|right].
     apply andb_true_iff in Hb. destruct Hb as [Hcls _]. subst cls. unfold own_event. cbn. rewrite Hk. reflexivity.
   - destruct (mem k (tss s)); [|split; [intros ch []|intros p []]].
